@@ -243,6 +243,31 @@ class World:
             g['filled'] = src.autofill(**(st.get('kw') or {}))
             g['path'] = 'autofill'
             g['signed'] = None
+        elif op == 'seek_fee':
+            # Boundary seeking (deterministic, adaptive): steer the simulated gas until the fee the client chooses sits on a
+            # varint length boundary of the fee field, then inject a handful of groups around that point.
+            plan = [dict(p) for p in (g.get('sim_plan') or [{'milligas': 100000}])]
+            target = int(st.get('target', 16384))
+            fee = None
+            for _ in range(10):
+                node.sim_plan = plan
+                filled = g['base'].autofill(**(st.get('kw') or {}))
+                fee = sum(int(c.get('fee', 0)) for c in filled.contents)
+                delta = target - fee
+                if abs(delta) <= 1:
+                    break
+                plan[0]['milligas'] = max(0, plan[0].get('milligas', 0) + delta * 10_000)
+            self.bump(self.info, 'seek_fee_converged' if fee is not None and abs(target - fee) <= 1 else 'seek_fee_not_converged')
+            base_mg = plan[0].get('milligas', 0)
+            for off in st.get('offsets', [-20, -10, 0, 10, 20]):
+                plan[0]['milligas'] = max(0, base_mg + off * 1000)
+                node.sim_plan = plan
+                g['fills'] += 1
+                g['path'] = 'autofill'
+                g['fill_kw'] = st.get('kw') or {}
+                filled = g['base'].autofill(**(st.get('kw') or {}))
+                g['filled'] = filled
+                self._sign(filled).inject()
         elif op == 'sign':
             if g['filled'] is None:
                 return
